@@ -14,7 +14,7 @@ COQ = os.path.join(VERIF, "coq")
 BUILD = os.path.join(VERIF, "build")
 EVID = os.path.join(VERIF, "evidence")
 REPLAY = os.path.join(VERIF, "build", "replay")
-NCPU = os.cpu_count() or 4
+NCPU = min(os.cpu_count() or 4, 8)
 
 ALLOWED_AXIOMS = {
     # standard-library axioms that may appear (each is named in DESIGN.md section 6)
